@@ -182,6 +182,32 @@ def all_last(a: str, c: str, d: str) -> bool:
     return _check(got, want)
 
 
+TWICE_U = ["h/a/x/v1", "h/a/x/v2", "h/a/x/v1/m", "h/a/x/v2/b", "h/a/y/v1/m", "h/s/q1/v1/c", "h/s/q1/v2/m", "h/s/q1/v2"]
+
+
+def list_twice(k: int) -> bool:
+    """
+    The same '>' search asked k+1 times of one list Finder and then of a new one (spil's caches ON): always the first answer,
+    which is the reference answer.
+    pre: 1 <= k <= 2
+    post: _
+    """
+    env.clear_caches()
+    f = FindInList(list(TWICE_U))
+    first = list(f.find(SEARCH, as_sid=False))
+    for _ in range(k):
+        if list(f.find(SEARCH, as_sid=False)) != first:
+            return fail("repeated-last-search-differs")
+    if list(FindInList(list(TWICE_U)).find(SEARCH, as_sid=False)) != first:
+        return fail("repeated-last-search-differs-on-a-new-finder")
+    forms = [s for (_t, s) in unfold_ref.unfold_ref(SEARCH)]
+    idx = forms[0].split("/").index(">")
+    want = last_ref(glob_ref.found([x.replace(">", "*") for x in forms], TWICE_U), idx)
+    if sorted(first) != sorted(want):
+        return fail("last-search-differs-from-reference")
+    return True
+
+
 def get_last(a: str, c: str) -> bool:
     """
     Sid(FIXED).get_last(KEY) is the single '>' answer among the existing siblings (or the empty Sid).
